@@ -161,8 +161,11 @@ def run_case(c):
 
         async def perform(op):
             if op[0] == "burst":
-                for sub in op[1]:
+                gaps = op[2] if len(op) > 2 else []
+                for k, sub in enumerate(op[1]):
                     await perform(sub)           # back to back, nothing is allowed to settle in between
+                    for _ in range(gaps[k] if k < len(gaps) else 0):
+                        await asyncio.sleep(0)   # ... but the loop may run a given number of iterations
             elif op[0] == "drv":
                 d, k = s.devs[op[1]]
                 drvimpl.apply_op(d, k, op[2])
